@@ -22,44 +22,35 @@ KF_FILE = os.path.join(VERIF, "KNOWN_FINDINGS.txt")
 # plans: per property and tier.  cases are per shard; shards are spread over the configurations.
 # ------------------------------------------------------------------------------------------------
 SEM = ["small", "small-nosse"]
+WRAP = ["small-wrap", "small-nosse-wrap"]
+STRICT4 = ["small-strict", "small-nosse-strict", "small-ts-wrap-strict", "small-wrap-strict"]
+FAULT3 = ["small-wrap-strict", "small-ts-wrap-strict", "small-nosse-wrap-strict"]
+
+
+def P(level, qc, qn, qs, tc, tn, ts, shards=16, **kw):
+    return dict(level=level, quick=dict(cfgs=qc, shards=shards, cases=qn, scale=qs, maxsize=100, **kw),
+                thorough=dict(cfgs=tc, shards=shards, cases=tn, scale=ts, maxsize=100, **kw))
+
+
 PLANS = {
-    "C01": dict(level="exploration", quick=dict(cfgs=SEM, shards=16, cases=420, scale=700, maxsize=100),
-                thorough=dict(cfgs=SEM + ["mid", "host-nosse", "small-omp"], shards=16, cases=4000, scale=1400, maxsize=100)),
-    "C02": dict(level="exploration", quick=dict(cfgs=SEM, shards=16, cases=450, scale=600, maxsize=100),
-                thorough=dict(cfgs=SEM + ["mid", "host"], shards=16, cases=5000, scale=1300, maxsize=100)),
-    "C03": dict(level="exploration", quick=dict(cfgs=SEM, shards=16, cases=400, scale=600, maxsize=100),
-                thorough=dict(cfgs=SEM + ["mid", "host"], shards=16, cases=4000, scale=1300, maxsize=100)),
-    "C04": dict(level="exploration", quick=dict(cfgs=SEM, shards=16, cases=400, scale=600, maxsize=100),
-                thorough=dict(cfgs=SEM + ["mid", "host"], shards=16, cases=4000, scale=1400, maxsize=100)),
-    "C05": dict(level="exploration", quick=dict(cfgs=SEM, shards=16, cases=350, scale=500, maxsize=100),
-                thorough=dict(cfgs=SEM + ["mid", "host"], shards=16, cases=3000, scale=1000, maxsize=100)),
-    "C06": dict(level="exploration", quick=dict(cfgs=SEM, shards=16, cases=400, scale=500, maxsize=100),
-                thorough=dict(cfgs=SEM + ["mid", "host"], shards=16, cases=4000, scale=1200, maxsize=100)),
-    "C07": dict(level="exploration", quick=dict(cfgs=SEM, shards=16, cases=400, scale=500, maxsize=100),
-                thorough=dict(cfgs=SEM + ["mid", "host"], shards=16, cases=4000, scale=1200, maxsize=100)),
-    "C08": dict(level="exploration", quick=dict(cfgs=SEM, shards=16, cases=1500, scale=800, maxsize=100),
-                thorough=dict(cfgs=SEM + ["host", "host-nosse"], shards=16, cases=20000, scale=1600, maxsize=100)),
-    "C09": dict(level="exploration", quick=dict(cfgs=SEM, shards=16, cases=700, scale=400, maxsize=100),
-                thorough=dict(cfgs=SEM + ["mid", "host"], shards=16, cases=8000, scale=900, maxsize=100)),
-    "C10": dict(level="exploration", quick=dict(cfgs=["small-wrap", "small-nosse-wrap"], shards=16, cases=700, scale=400, maxsize=100),
-                thorough=dict(cfgs=["small-wrap", "small-nosse-wrap"], shards=16, cases=8000, scale=900, maxsize=100)),
-    "C20": dict(level="fault_enumeration",
-                quick=dict(cfgs=["small-wrap-strict", "small-ts-wrap-strict", "small-nosse-wrap-strict"], shards=15, cases=4, scale=100, strict=True, san_to_stderr=True),
-                thorough=dict(cfgs=["small-wrap-strict", "small-ts-wrap-strict", "small-nosse-wrap-strict"], shards=15, cases=60, scale=100, strict=True, san_to_stderr=True)),
-    "C11": dict(level="exploration",
-                quick=dict(cfgs=["small-strict", "small-nosse-strict", "small-ts-wrap-strict", "small-wrap-strict"], shards=16, cases=900, scale=400, strict=True, san_to_stderr=True),
-                thorough=dict(cfgs=["small-strict", "small-nosse-strict", "small-ts-wrap-strict", "small-wrap-strict"], shards=16, cases=10000, scale=900, strict=True, san_to_stderr=True)),
-    "C13": dict(level="exploration", quick=dict(cfgs=["small", "small-nosse", "mid"], shards=15, cases=1200, scale=500, maxsize=100),
-                thorough=dict(cfgs=["small", "small-nosse", "mid", "host"], shards=16, cases=15000, scale=1200, maxsize=100)),
-    "C14": dict(level="exploration", quick=dict(cfgs=["small-wrap", "small-nosse-wrap"], shards=16, cases=500, scale=100, maxsize=100),
-                thorough=dict(cfgs=["small-wrap", "small-nosse-wrap", "small-ts-wrap-strict"], shards=16, cases=6000, scale=100, maxsize=100)),
-    "C17": dict(level="exploration", quick=dict(cfgs=SEM, shards=16, cases=1500, scale=400, maxsize=100),
-                thorough=dict(cfgs=SEM + ["host"], shards=16, cases=20000, scale=1000, maxsize=100)),
-    "C18": dict(level="exploration",
-                quick=dict(cfgs=["small-strict", "small-nosse-strict"], shards=16, cases=700, scale=300, strict=True, san_to_stderr=True),
-                thorough=dict(cfgs=["small-strict", "small-nosse-strict"], shards=16, cases=8000, scale=600, strict=True, san_to_stderr=True)),
-    "C19": dict(level="exploration", quick=dict(cfgs=SEM, shards=16, cases=300, scale=300, maxsize=100),
-                thorough=dict(cfgs=SEM + ["host", "host-nosse"], shards=16, cases=3000, scale=600, maxsize=100)),
+    "C01": P("exploration", SEM, 16000, 800, SEM + ["mid", "host-nosse", "small-omp"], 30000, 1500),
+    "C02": P("exploration", SEM, 24000, 700, SEM + ["mid", "host"], 60000, 1300),
+    "C03": P("exploration", SEM, 15000, 700, SEM + ["mid", "host"], 40000, 1300),
+    "C04": P("exploration", SEM, 30000, 700, SEM + ["mid", "host"], 50000, 1400),
+    "C05": P("exploration", SEM, 20000, 600, SEM + ["mid", "host"], 40000, 1100),
+    "C06": P("exploration", SEM, 20000, 600, SEM + ["mid", "host"], 40000, 1200),
+    "C07": P("exploration", SEM, 36000, 600, SEM + ["mid", "host"], 50000, 1200),
+    "C08": P("exploration", SEM, 60000, 900, SEM + ["host", "host-nosse"], 150000, 1700),
+    "C09": P("exploration", SEM, 32000, 500, SEM + ["mid", "host"], 80000, 900),
+    "C10": P("exploration", WRAP, 1500, 400, WRAP, 15000, 800),
+    "C11": P("exploration", STRICT4, 10000, 400, STRICT4, 40000, 800, strict=True, san_to_stderr=True),
+    "C13": P("exploration", ["small", "small-nosse", "mid"], 48000, 500, ["small", "small-nosse", "mid", "host"], 60000, 1200, shards=15),
+    "C14": P("exploration", WRAP, 1500, 100, WRAP + ["small-ts-wrap-strict"], 15000, 100),
+    "C17": P("exploration", SEM, 96000, 400, SEM + ["host"], 120000, 1000),
+    "C18": P("exploration", ["small-strict", "small-nosse-strict"], 4500, 300, ["small-strict", "small-nosse-strict"], 30000, 600,
+             strict=True, san_to_stderr=True),
+    "C19": P("exploration", SEM, 30000, 300, SEM + ["host", "host-nosse"], 30000, 600),
+    "C20": P("fault_enumeration", FAULT3, 30, 100, FAULT3, 150, 100, shards=15, strict=True, san_to_stderr=True),
 }
 
 
